@@ -354,6 +354,16 @@ def boundary_cases(salt, which):
         for d in (-2, 0, 1, 3):
             j = min(max(idx + d, 0), len(table) - 1)
             yield 'compressed_limit%+d' % d, base[:table[j][0]]
+        # header + stream fill the area EXACTLY and the stream ends in a two-byte token (an escaped byte): the last
+        # byte of the area is the second byte of that token
+        for j in range(idx, max(idx - 40, 0), -1):
+            if table[j][1] != target - 2:
+                continue
+            text = base[:table[j][0]] + bytes((0x80 + salt[1] % 0x70,))
+            st2 = bytes(compress.compress_code(text))
+            if len(st2) == target and reffmt.parse_stream(st2)[0][-1][0] in ('esc', 'blk'):
+                yield 'compressed_exact_fill', text
+                break
     elif which == 'header':
         # raw text fits exactly, compressed stream is smaller than the text but stream + 8-byte header
         # is not: the writer must fall back to the plain text
@@ -477,6 +487,7 @@ def replay(case):
 def vacuity(total, tier):
     msgs = []
     for lab in ('stored_raw', 'stored_compressed', 'refused', 'boundary_raw', 'boundary_compressed', 'boundary_header_edge',
+                'boundary_compressed_exact_fill',
                 'dest_exists', 'dest_absent', 'dest_plain', 'dest_interlaced', 'dest_ancillary', 'dest_chunk_pHYs', 'convert', 'code_update60', 'code_table_rows', 'written_twice'):
         if total.classes.get(lab, 0) < 1:
             msgs.append('class %s never seen' % lab)
